@@ -195,7 +195,7 @@ pub struct Stats {
     pub faults: BTreeMap<String, u64>,
     pub probes: BTreeMap<String, u64>,
     pub steps: u64,
-    pub sim_ns: u64,
+    pub sim_ns: u128,
     pub tx_started: u64,
     pub tx_completed: u64,
 }
